@@ -10,6 +10,16 @@ for l in open('/verif/properties.jsonl'):
     d=json.loads(l)
     if d['id']==pid:
         t=open('/verif/tools/mutant_prompt.md').read()
+        import glob,os
+        done=[]
+        for m in sorted(glob.glob('/verif/seeded/'+pid+'-m*/meta.json')):
+            try: done.append('  - '+json.load(open(m))['summary'][:200].replace('\n',' ')+' ...')
+            except Exception: pass
+        avoid=('\nEarlier rounds already produced the following changes for this property; yours must have DIFFERENT root causes,\nin different functions (preferably different files among the anchors), and different trigger conditions:\n'+'\n'.join(done)+'\n') if done else ''
+        t=t.replace('{AVOID}',avoid)
+        nums=[int(os.path.basename(os.path.dirname(m)).split('-m')[1]) for m in glob.glob('/verif/seeded/'+pid+'-m*/meta.json')]
+        n=max(nums+[0])
+        t=t.replace('{M1}','m%d'%(n+1)).replace('{M2}','m%d'%(n+2)).replace('("m1" and "m2")','("m%d" and "m%d")'%(n+1,n+2))
         t=t.replace('{WT}','/tmp/mut/wt-'+pid).replace('{OUT}','/tmp/mut/out-'+pid).replace('{PROPERTY}',json.dumps(d,indent=1))
         open('/tmp/mut/prompt-'+pid+'.md','w').write(t)
 PY
